@@ -28,7 +28,7 @@ VERIF = os.path.dirname(HERE)
 CACHE = os.environ.get('OPTREE_VERIF_CACHE') or os.path.join(VERIF, '.cache')
 CLANG = 'clang++-14'
 PYBIND_INC = '/venv/lib/python3.12/site-packages/torch/include'
-IR_VERSION = '10'
+IR_VERSION = '11'
 
 CONFIGS = {
     # name: (CPython include dir, extra flags)
@@ -541,6 +541,11 @@ class _TUBuilder:
             n.kids = [k for k, c in zip(n.kids, inner)
                       if not (isinstance(c, dict) and c.get('kind') and
                               (c['kind'].endswith('Type') or c['kind'].endswith('Comment')))]
+        # canonical operand order of the built-in symmetric comparisons: the constant on the right
+        # (`2 != n` is `n != 2`); the rules read kind / length / null tests off one shape only
+        if kind == 'BinaryOperator' and n.op in ('==', '!=') and len(n.kids) == 2 and \
+                _is_constant(n.kids[0]) and not _is_constant(n.kids[1]):
+            n.kids = [n.kids[1], n.kids[0]]
         return n
 
     def _lambda(self, m):
@@ -551,6 +556,22 @@ class _TUBuilder:
                              lambda_parent=parent)
         self._cur = saved_cur
         return lf
+
+
+def _is_constant(k):
+    """a literal, nullptr or an enumerator (wrappers are already peeled by conv)"""
+    if k is None:
+        return False
+    if k.kind in ('IntegerLiteral', 'CXXNullPtrLiteralExpr', 'CXXBoolLiteralExpr', 'CharacterLiteral',
+                  'GNUNullExpr', 'FloatingLiteral'):
+        return True
+    if k.kind == 'DeclRefExpr' and (k.ref or {}).get('kind') == 'EnumConstantDecl':
+        return True
+    if k.kind in ('CStyleCastExpr', 'CXXStaticCastExpr', 'CXXFunctionalCastExpr') and k.kids:
+        return _is_constant(k.kids[-1])
+    if k.kind == 'UnaryOperator' and k.op == '-' and k.kids:
+        return _is_constant(k.kids[0])
+    return False
 
 
 def _is_const_sig(sig):
